@@ -79,9 +79,7 @@ Definition C16_check (c : dcase) : verdict :=
       if negb (denv_sane c) then DIVERGE "environment-assumption-sane" else
       match first_ddivergence (d_cfg c) (d_rounds c) 0 with
       | Some w => DIVERGE w
-      | None =>
-          (* 3. the same predicates on the model's own run against the same answers *)
-          OK
+      | None => OK
       end
   end.
 
